@@ -555,19 +555,33 @@ func describeErrCond(c *chk.Ctx, cd ir.Cond, sentinel *ssa.Global) string {
 	return neg + "?"
 }
 
-// closedGoverned: block b is entered exactly from the true edge of
-// err == io.EOF and the true edge of IsErrClosing(err).
+// closedGoverned: block b is entered exactly under err == io.EOF, or
+// IsErrClosing(err) — whether written as if/||, or as a tagless switch case.
 func closedGoverned(c *chk.Ctx, b *ssa.BasicBlock, sentinel *ssa.Global) bool {
-	if len(b.Preds) != 2 {
+	var alts [][]ir.Cond
+	for _, p := range b.Preds {
+		own, ok := ir.EdgeOwnCond(p, b)
+		if !ok {
+			return false
+		}
+		alts = append(alts, ir.CondAlternatives(own, 0)...)
+	}
+	if len(alts) != 2 {
 		return false
 	}
 	seen := map[string]bool{}
-	for _, p := range b.Preds {
-		iff, ok := p.Instrs[len(p.Instrs)-1].(*ssa.If)
-		if !ok || p.Succs[0] != b {
-			return false
+	for _, alt := range alts {
+		pos := ""
+		for _, cd := range alt {
+			d := describeErrCond(c, cd, sentinel)
+			if !strings.HasPrefix(d, "¬") {
+				if pos != "" {
+					return false
+				}
+				pos = d
+			}
 		}
-		seen[describeErrCond(c, ir.Cond{V: iff.Cond, Truth: true}, sentinel)] = true
+		seen[pos] = true
 	}
 	return seen["err==io.EOF"] && seen["IsErrClosing"]
 }
